@@ -15,7 +15,7 @@ open Lean Grind Std
 section generic
 variable {α : Type} (o : Ops α)
 
-theorem lastNonneg_none_iff (w : List α) : lastNonneg o w = none ↔ w.any o.nonneg = false := by
+private theorem lastNonneg_none_iff (w : List α) : lastNonneg o w = none ↔ w.any o.nonneg = false := by
   unfold lastNonneg
   cases h : w.reverse.findIdx? o.nonneg with
   | none => simp [List.findIdx?_eq_none_iff] at h ⊢; exact h
@@ -24,7 +24,7 @@ theorem lastNonneg_none_iff (w : List α) : lastNonneg o w = none ↔ w.any o.no
     obtain ⟨hk, hp, _⟩ := List.findIdx?_eq_some_iff_getElem.mp h
     exact ⟨w.reverse[k], List.mem_reverse.mp (List.getElem_mem hk), hp⟩
 
-theorem lastNonneg_some (w : List α) (k : Nat) (h : lastNonneg o w = some k) :
+private theorem lastNonneg_some (w : List α) (k : Nat) (h : lastNonneg o w = some k) :
     ∃ hk : k < w.length, o.nonneg w[k] = true := by
   unfold lastNonneg at h
   cases h' : w.reverse.findIdx? o.nonneg with
@@ -38,11 +38,11 @@ theorem lastNonneg_some (w : List α) (k : Nat) (h : lastNonneg o w = some k) :
     rw [List.getElem_reverse] at hp
     exact hp
 
-theorem window_length (res : List α) (i off la : Nat) (h : i + off + la ≤ res.length) :
+private theorem window_length (res : List α) (i off la : Nat) (h : i + off + la ≤ res.length) :
     (window res i off la).length = la := by
   simp [window]; omega
 
-theorem window_getElem (res : List α) (i off la j : Nat) (h : i + off + la ≤ res.length)
+private theorem window_getElem (res : List α) (i off la j : Nat) (h : i + off + la ≤ res.length)
     (hj : j < la) :
     (window res i off la)[j]'(by rw [window_length res i off la h]; exact hj)
       = res[i + off + j]'(by omega) := by
@@ -50,7 +50,7 @@ theorem window_getElem (res : List α) (i off la j : Nat) (h : i + off + la ≤ 
 
 /-- Once every sample of the residual is non-negative, the production loop changes nothing
 (`look_ahead > 0`). -/
-theorem fast_all_nonneg (resp : List α) (off la : Nat) (hla : 0 < la) (i : Nat)
+private theorem fast_all_nonneg (resp : List α) (off la : Nat) (hla : 0 < la) (i : Nat)
     (res inp : List α) (hall : ∀ x ∈ res, o.nonneg x = true) :
     fast o resp off la i res inp = (res, inp) := by
   fun_induction fast o resp off la i res inp with
@@ -70,7 +70,7 @@ theorem fast_all_nonneg (resp : List α) (off la : Nat) (hla : 0 < la) (i : Nat)
 /-- With `offset = 0`: while the samples before `k` are non-negative and the `look_ahead` samples
 from `k` on are not, the production loop started at `i ≤ k` arrives at `i = k` with the state
 unchanged (its jumps never overshoot `k`). -/
-theorem fast_skip_to (resp : List α) (la k : Nat) (hla : 0 < la) (res inp : List α)
+private theorem fast_skip_to (resp : List α) (la k : Nat) (hla : 0 < la) (res inp : List α)
     (hk : k + la ≤ res.length)
     (hlo : ∀ p (hp : p < k), o.nonneg (res[p]'(by omega)) = true)
     (hhi : ∀ p (_h1 : k ≤ p) (h2 : p < k + la), o.nonneg (res[p]'(by omega)) = false) :
@@ -108,7 +108,7 @@ theorem fast_skip_to (resp : List α) (la k : Nat) (hla : 0 < la) (res inp : Lis
             rw [this] at hnn; cases hnn
         exact ih (k - (i + j + 1)) (by omega) (i + j + 1) (by omega)
 
-theorem subScaled_getElem? (v : α) (ss rs : List α) (j : Nat) :
+private theorem subScaled_getElem? (v : α) (ss rs : List α) (j : Nat) :
     (subScaled o v ss rs)[j]? =
       (ss[j]?).map fun s => match rs[j]? with
         | some r => o.sub s (o.mul v r)
@@ -120,7 +120,7 @@ theorem subScaled_getElem? (v : α) (ss rs : List α) (j : Nat) :
     | nil => simp [subScaled]
     | cons r rs => cases j <;> simp [subScaled, ih]
 
-theorem applyAt_getElem? (res resp : List α) (i : Nat) (v : α) (j : Nat) :
+private theorem applyAt_getElem? (res resp : List α) (i : Nat) (v : α) (j : Nat) :
     (applyAt o res resp i v)[j]? =
       if j < i then res[j]? else
         (res[j]?).map fun s => match resp[j - i]? with
@@ -144,7 +144,7 @@ theorem applyAt_getElem? (res resp : List α) (i : Nat) (v : α) (j : Nat) :
 
 /-- The guards of `nn_greedy_deconvolution` pass when the response is negative on the window
 and `look_ahead > 0`. -/
-theorem nnGreedy_ok (b : Bool) (signal resp : List α) (off la : Nat)
+private theorem nnGreedy_ok (b : Bool) (signal resp : List α) (off la : Nat)
     (hr : ResponseNeg o resp off la) (hla : 0 < la) :
     nnGreedy o b signal resp off la =
       .ok ((loopResult o b signal resp off la).1,
